@@ -3,9 +3,11 @@
 1. TLC checks the implementation-shaped model AsyncifyPool (one action per atomic step / hook site of
    asyncify.rs on top of the flume rendezvous channel, 1-2 dispatching threads, worker start-up and
    retirement, panicking jobs, the push_blocking retry loop): exactly-once, nothing lost, counter
-   accounting, respawn after retirement, the bound on running jobs and, on the fair spec, completion of
-   the blocking send and of every job. The two genuine defects of the pinned tree are NAMED deviations
-   (DLoadPassLagged, OrphanedBy); strict control configs must violate, the repaired design (Fix) must hold.
+   accounting, respawn after retirement, the strict bound on running jobs / live threads and, on the fair
+   spec, that every dispatch returns and every job finishes. The model describes the tree WITH the repair
+   (fix commit 4304f73: slot reserved by fetch_update in dispatch, job handed to the new thread; Fix = TRUE);
+   three control configs keep the behaviour before the repair (named deviations DLoadPassLagged, OrphanedBy)
+   and must violate Bounded / SendCompletes.
 2. Gen_AsyncifyPool prints the labelled state graph; an edge-covering path set (quick) / seeded simulation
    (thorough) is replayed on the REAL pool by harness bin pool_replay: threads park at the pool.* hooks and
    the controller grants turns; after every step the real threads are projected onto the model record and
@@ -34,13 +36,13 @@ TEXT = ("TLC explores every interleaving of 1-2 dispatching threads with worker 
         "drivers), with the contract evaluated on per-job execution counters, a running gauge, the identity of "
         "handed-back jobs, results/panics popped from the Proactor and a hang watchdog; a free-running seeded stress "
         "with 1-5 ms recv_timeout uses the same oracle.")
-NOTE = ("Bounds: Limit 1-2, 1-2 dispatchers, 2-4 jobs, <= 4 worker threads per model run; thread_limit 0 (documented "
+NOTE = ("Bounds: Limit 1-3, 1-2 dispatchers, 2-5 jobs, <= 5 worker threads per model run; thread_limit 0 (documented "
         "panic) is out of scope. Sequentially consistent atomics; flume bounded(0) is modelled from its source "
-        "(FIFO hand-off to the longest parked receiver, a receiver takes the oldest queued sender). 'Parked inside "
-        "the channel' is observed through the kernel's thread state (/proc/self/task). Timeouts are real time: "
-        "steered schedules use recv_timeout 250 ms (doubled on retry), a schedule whose real threads diverge is "
-        "DRIFT, not a violation. Two genuine defects are recorded as known findings (limit overrun by counter lag; "
-        "blocking send orphaned when the last receiver retires) and kept as named deviations of the model.")
+        "(FIFO hand-off to the longest parked receiver). 'Parked inside the channel' is observed through the "
+        "kernel's thread state (/proc/self/task). Timeouts are real time: steered schedules use recv_timeout 250 ms "
+        "(doubled on retry), a schedule whose real threads diverge is DRIFT, not a violation. Three genuine defects "
+        "found by this check (limit overrun by counter lag; blocking send orphaned when the last receiver retired or "
+        "died of a panic) were repaired by fix commit 4304f73; the old behaviour survives only in the control configs.")
 TECHNIQUE = "TLA+ model (TLC safety + liveness) + schedule-controlled replay on real threads + seeded stress"
 DESIGN_REF = "3/C17"
 
@@ -54,24 +56,24 @@ def _temporal_violation(r):
 
 
 def model_runs(tier):
-    """(cfg, kind, ignore-zero-actions) kind: ok | ctl-inv:<name> | ctl-live"""
-    unused_nofix = ("DReserve",)
+    """(cfg, kind, ignore-zero-actions) kind: ok | ctl-inv:<name> | ctl-live.
+    Normal configs model the code as it is (Fix = TRUE: the repaired dispatch); the three control configs keep
+    the behaviour before the fix commit and must violate the strict properties."""
     unused_fix = ("DLoadReject", "DLoadPass", "DLoadPassLagged", "DSend", "WInc")
     runs = [
-        ("MC_AsyncifyPool.cfg", "ok", unused_nofix),
+        ("MC_AsyncifyPool.cfg", "ok", unused_fix),
+        ("MC_AsyncifyPool_l2.cfg", "ok", unused_fix),
+        ("MC_AsyncifyPool_live.cfg", "ok", unused_fix),
+        ("MC_AsyncifyPool_live_drv.cfg", "ok", unused_fix),
         ("MC_AsyncifyPool_strict.cfg", "ctl-inv:Bounded", None),
-        ("MC_AsyncifyPool_live_drv.cfg", "ok", unused_nofix),
         ("MC_AsyncifyPool_live_strict.cfg", "ctl-live", None),
-        ("MC_AsyncifyPool_fixed.cfg", "ok", unused_fix),
     ]
     if tier != "quick":
         runs += [
-            ("MC_AsyncifyPool_l2.cfg", "ok", unused_nofix),
             ("MC_AsyncifyPool_strict1.cfg", "ctl-inv:Bounded", None),
-            ("MC_AsyncifyPool_live.cfg", "ok", unused_nofix),
-            ("MC_AsyncifyPool_fixed_l2.cfg", "ok", unused_fix),
-            ("MC_AsyncifyPool_thorough.cfg", "ok", unused_nofix),
-            ("MC_AsyncifyPool_live_thorough.cfg", "ok", unused_nofix),
+            ("MC_AsyncifyPool_thorough.cfg", "ok", unused_fix),
+            ("MC_AsyncifyPool_live_thorough.cfg", "ok", unused_fix),
+            ("MC_AsyncifyPool_thorough2.cfg", "ok", unused_fix),
         ]
     return runs
 
@@ -264,7 +266,7 @@ def drivers_of(cfg):
 
 
 def quick_schedules(run):
-    plans = [("a", "full"), ("b", "full"), ("e", "full"), ("c", "abs"), ("f_over", "target")]
+    plans = [("a", "full"), ("b", "full"), ("e", "full"), ("c", "full"), ("d", "full"), ("f", "abs")]
 
     def one(item):
         name, mode = item
@@ -331,16 +333,16 @@ def thorough_schedules(run):
 
 
 def quick_schedules_thorough(run):
-    """thorough: the quick cover with config c covered edge by edge as well"""
+    """thorough: the quick cover with config f (Limit 2, 4 jobs, push_blocking loop) covered edge by edge as well"""
     scheds = quick_schedules(run)
-    r, edges = gen_edges("Gen_AsyncifyPool_c.cfg")
-    cfg = read_cfg("Gen_AsyncifyPool_c.cfg")
+    r, edges = gen_edges("Gen_AsyncifyPool_f.cfg")
+    cfg = read_cfg("Gen_AsyncifyPool_f.cfg")
     g = Graph(edges)
     paths, done, total = cover_paths(g, class_full(g))
-    run.cov.setdefault("schedule_cover", {})["c_full"] = {"mode": "every edge", "targets_covered": total, "paths": len(paths)}
+    run.cov.setdefault("schedule_cover", {})["f_full"] = {"mode": "every edge", "targets_covered": total, "paths": len(paths)}
     for p in paths:
         for drv in drivers_of(cfg):
-            scheds.append(to_schedule(g, p, "c", cfg, drv, len(scheds) + 1))
+            scheds.append(to_schedule(g, p, "f", cfg, drv, len(scheds) + 1))
     return scheds
 
 
@@ -400,7 +402,7 @@ def negative_control(run, scheds, tmp):
         if s["driver"] != "raw":
             continue
         for i, st in enumerate(s["steps"]):
-            if st["act"] == "DLoadReject" and i > 2:
+            if st["act"] == "DReserve" and st["to"]["pcD"][st["role"]] != "spawn" and i > 2:
                 t = json.loads(json.dumps(s))
                 t["steps"] = t["steps"][:i + 1]
                 d = t["steps"][i]["role"]
